@@ -32,7 +32,8 @@ LEVEL_TEXT = ("The real observation task graph is run by the real dask scheduler
               "product / sequential / custom modes, all schedules with <= 1 (quick) or <= 2 (thorough) preemptions and "
               "all start orders are executed and every bucket of every parameter label is compared bit-for-bit with the "
               "sequential run; files written are matched one-to-one to runs. Free-running thread/process pools and "
-              "calibrations under different worker counts and island creation orders are added as differential runs.")
+              "calibrations under different worker counts and island creation orders are added as differential runs."
+              " Part legacy compares pyxel.observation_mode(with_dask=True) (runs mapped over a dask bag; synchronous, threads 2/8, processes 2) with its own sequential execution: data under labels and files by name.")
 LEVEL_NOTE = ("Scheduling points: probe-model entry/exit, every operation on the process-wide numpy generator, the "
               "seeding lock, task start/completion. Accesses without a scheduling point are only covered by the "
               "free-running pass (which can add violations but vouches for nothing). Pygmo's C++ threads and "
